@@ -325,11 +325,12 @@ class MergeModel:
                                 % (f.where, short(pol)))
         self.policy = pname
         a, b = kwarg(m, 'a', 0), kwarg(m, 'b', 1)
-        if not (isinstance(a, ast.Name) and isinstance(b, ast.Name)):
-            raise AnalysisError('UNRECOGNISED-IDIOM %s: dict_merge operands '
-                                'are not plain names' % f.where)
-        self.rvar, self.svar = a.id, b.id
-        # rcfg = <Class>(from_dict=self._rcfgs[site][res])
+        if not isinstance(a, ast.Name) or b is None:
+            raise AnalysisError('UNRECOGNISED-IDIOM %s: dict_merge target is '
+                                'not a plain name' % f.where)
+        self.rvar = a.id
+        self.svar = b.id if isinstance(b, ast.Name) else None
+        # rcfg = <Class>(from_dict=<the stored entry>)
         self.td = None
         for n in walk(f.node):
             if isinstance(n, ast.Assign) and any(
@@ -341,35 +342,62 @@ class MergeModel:
         if self.td is None:
             raise AnalysisError('UNRECOGNISED-IDIOM %s: %s is not built from '
                                 'a TypedDict class' % (f.where, self.rvar))
-        # scfg = rcfg['schemas'][schema]  (+ optional alias step)
-        sdefs = [n for n in walk(f.node) if isinstance(n, ast.Assign) and any(
-            isinstance(t, ast.Name) and t.id == self.svar for t in n.targets)]
+
+        # the second operand: <cfg>['schemas'][<schema>] / <cfg>.schemas[..],
+        # directly or through a local; an alias step looks the local up again
+        def schema_lookup(v):
+            """'direct' | 'alias' | None"""
+            if not isinstance(v, ast.Subscript):
+                return None
+            inner = v.value
+            is_schemas = isinstance(inner, ast.Subscript) and \
+                isinstance(inner.slice, ast.Constant) and \
+                inner.slice.value == 'schemas' or \
+                isinstance(inner, ast.Attribute) and inner.attr == 'schemas'
+            if not is_schemas:
+                # a local holding the schemas dict
+                if isinstance(inner, ast.Name):
+                    vals = [n.value for n in walk(f.node)
+                            if isinstance(n, ast.Assign) and any(
+                                isinstance(t, ast.Name) and t.id == inner.id
+                                for t in n.targets)]
+                    is_schemas = len(vals) == 1 and (
+                        isinstance(vals[0], ast.Subscript) and
+                        isinstance(vals[0].slice, ast.Constant) and
+                        vals[0].slice.value == 'schemas' or
+                        isinstance(vals[0], ast.Attribute) and
+                        vals[0].attr == 'schemas')
+            if not is_schemas:
+                return None
+            if self.svar and isinstance(v.slice, ast.Name) and \
+                    v.slice.id == self.svar:
+                return 'alias'
+            return 'direct'
+
         ok = False
         self.alias = False
-        for n in sdefs:
-            v = n.value
-            if isinstance(v, ast.Subscript) and \
-                    isinstance(v.value, ast.Subscript) and \
-                    isinstance(v.value.slice, ast.Constant) and \
-                    v.value.slice.value == 'schemas':
-                if isinstance(v.slice, ast.Name) and v.slice.id == self.svar:
+        if self.svar is None:
+            if schema_lookup(b) != 'direct':
+                raise AnalysisError('UNRECOGNISED-IDIOM %s: merged operand '
+                                    '`%s`' % (f.where, short(b)))
+            ok = True
+        else:
+            sdefs = [n for n in walk(f.node) if isinstance(n, ast.Assign) and
+                     any(isinstance(t, ast.Name) and t.id == self.svar
+                         for t in n.targets)]
+            for n in sdefs:
+                k = schema_lookup(n.value)
+                if k == 'alias':
                     self.alias = True
-                else:
+                elif k == 'direct':
                     ok = True
-            elif isinstance(v, ast.Subscript) and \
-                    isinstance(v.value, ast.Attribute) and \
-                    v.value.attr == 'schemas':
-                if isinstance(v.slice, ast.Name) and v.slice.id == self.svar:
-                    self.alias = True
                 else:
-                    ok = True
-            else:
-                raise AnalysisError('UNRECOGNISED-IDIOM %s: %s'
-                                    % (f.where, short(n)))
+                    raise AnalysisError('UNRECOGNISED-IDIOM %s: %s'
+                                        % (f.where, short(n)))
         if not ok:
-            raise AnalysisError('UNRECOGNISED-IDIOM %s: %s is not read from '
-                                "<cfg>['schemas'][<schema>]"
-                                % (f.where, self.svar))
+            raise AnalysisError('UNRECOGNISED-IDIOM %s: the merged operand is '
+                                "not read from <cfg>['schemas'][<schema>]"
+                                % f.where)
         self.verify = any(call_name(c) == self.rvar + '.verify'
                           for c in calls_in(f.node))
 
@@ -1229,6 +1257,224 @@ def r17_2(prog, rep, ctx, rid='R17.2'):
 
 
 # ------------------------------------------------------------------------------
+# seeing through private helpers: `x = self._helper(a, b, k=c)` is replaced by
+# the helper's body (parameters and locals renamed per call site, `return e`
+# turned into `x = e`, early returns turned into if/else nests)
+#
+import copy
+
+from ..model import FuncInfo
+
+
+class _Rename(ast.NodeTransformer):
+
+    def __init__(self, names, prefix):
+        self.names, self.prefix = names, prefix
+
+    def visit_Name(self, n):
+        if n.id in self.names:
+            return ast.copy_location(ast.Name(id=self.prefix + n.id,
+                                              ctx=n.ctx), n)
+        return n
+
+
+def _has_return(stmts):
+    return any(isinstance(x, ast.Return) for s in stmts
+               for x in walk(s, nested=False))
+
+
+def _returns_to(stmts, target, loc):
+    """statement list with every `return e` replaced by `target = e`; None
+    if a return sits inside a loop / try / with (not convertible)"""
+    out = []
+    for i, s in enumerate(stmts):
+        if isinstance(s, ast.Return):
+            v = s.value if s.value is not None else ast.Constant(value=None)
+            a = ast.Assign(targets=[ast.Name(id=target, ctx=ast.Store())],
+                           value=v)
+            ast.copy_location(a, s)
+            ast.fix_missing_locations(a)
+            out.append(a)
+            return out
+        if isinstance(s, ast.If) and _has_return([s]):
+            rest = stmts[i + 1:]
+            body = _returns_to(list(s.body) + copy.deepcopy(rest), target, loc)
+            orel = _returns_to(list(s.orelse) + copy.deepcopy(rest), target,
+                               loc)
+            if body is None or orel is None:
+                return None
+            n = ast.If(test=s.test, body=body or [ast.Pass()], orelse=orel)
+            ast.copy_location(n, s)
+            ast.fix_missing_locations(n)
+            out.append(n)
+            return out
+        if _has_return([s]):
+            return None
+        out.append(s)
+    return out
+
+
+def _always_returns(stmts):
+    if not stmts:
+        return False
+    last = stmts[-1]
+    if isinstance(last, (ast.Return, ast.Raise)):
+        return True
+    if isinstance(last, ast.If):
+        return _always_returns(last.body) and _always_returns(last.orelse)
+    return False
+
+
+def _inlinable(prog, f, h):
+    """a private helper of the same module which is not dispatched virtually
+    (no other class of the hierarchy defines the name) and always returns"""
+    if h is None or h is f or h.module is not f.module or h.cls is None or \
+            not h.name.startswith('_') or h.name.startswith('__'):
+        return False
+    for k in prog.subclasses(h.cls, strict=True):
+        if h.name in k.methods:
+            return False
+    return _always_returns(h.node.body)
+
+
+def _inline_call(prog, f, call, target, seq, depth):
+    """statements replacing `target = call`, or None"""
+    h = prog.resolve_call(f, call, f.cls)
+    if not _inlinable(prog, f, h) or depth > 2:
+        return None
+    a = h.node.args
+    if a.vararg or a.kwarg or a.posonlyargs or any(
+            isinstance(x, (ast.Yield, ast.YieldFrom, ast.Await, ast.Global,
+                           ast.Nonlocal, ast.FunctionDef, ast.Lambda,
+                           ast.ClassDef))
+            for x in walk(h.node, nested=True) if x is not h.node):
+        return None
+    if any(isinstance(x, ast.Starred) for x in call.args) or any(
+            k.arg is None for k in call.keywords):
+        return None
+    deco = {dotted(d) for d in h.node.decorator_list}
+    if deco - {'staticmethod', 'classmethod'}:
+        return None
+    params = [x.arg for x in a.args]
+    bound = {}
+    if 'staticmethod' not in deco and params:
+        bound[params[0]] = None                     # self / cls: not renamed
+        params = params[1:]
+    pos = list(call.args)
+    if len(pos) > len(params):
+        return None
+    for p_, v in zip(params, pos):
+        bound[p_] = v
+    for k in call.keywords:
+        if k.arg in bound or k.arg not in params + [x.arg
+                                                    for x in a.kwonlyargs]:
+            return None
+        bound[k.arg] = k.value
+    defaults = dict(zip([x.arg for x in a.args][len(a.args) -
+                                                len(a.defaults):],
+                        a.defaults))
+    for x, dv in zip(a.kwonlyargs, a.kw_defaults):
+        if dv is not None:
+            defaults[x.arg] = dv
+    for p_ in params + [x.arg for x in a.kwonlyargs]:
+        if p_ not in bound:
+            if p_ not in defaults:
+                return None
+            bound[p_] = defaults[p_]
+    body = copy.deepcopy(h.node.body)
+    if body and isinstance(body[0], ast.Expr) and \
+            isinstance(body[0].value, ast.Constant):
+        body = body[1:]                             # docstring
+    prefix = '_i%d_' % seq[0]
+    seq[0] += 1
+    ret = prefix + 'ret'
+    body = _returns_to(body, ret, call)
+    if body is None:
+        return None
+    local = {p_ for p_, v in bound.items() if v is not None}
+    for st in body:
+        for x in walk(st, nested=True):
+            if isinstance(x, ast.Name) and isinstance(x.ctx, (ast.Store,
+                                                              ast.Del)):
+                local.add(x.id)
+    rn = _Rename(local - {ret}, prefix)
+    body = [rn.visit(st) for st in body]
+    pre = []
+    for p_, v in bound.items():
+        if v is None:
+            continue
+        st = ast.Assign(targets=[ast.Name(id=prefix + p_, ctx=ast.Store())],
+                        value=copy.deepcopy(v))
+        ast.copy_location(st, call)
+        ast.fix_missing_locations(st)
+        pre.append(st)
+    post = ast.Assign(targets=[copy.deepcopy(target)],
+                      value=ast.Name(id=ret, ctx=ast.Load()))
+    ast.copy_location(post, call)
+    ast.fix_missing_locations(post)
+    # helpers called by the helper
+    hf = FuncInfo(h.name, h.qual, h.module, h.cls,
+                  ast.FunctionDef(name=h.name, args=h.node.args, body=body,
+                                  decorator_list=[], returns=None,
+                                  lineno=h.node.lineno, col_offset=0))
+    body = _inline_stmts(prog, hf, body, seq, depth + 1)
+    return pre + body + [post]
+
+
+def _inline_stmts(prog, f, stmts, seq, depth=0):
+    out = []
+    for st in stmts:
+        if isinstance(st, ast.Assign) and len(st.targets) == 1 and \
+                isinstance(st.targets[0], ast.Name) and \
+                isinstance(st.value, ast.Call):
+            d = call_name(st.value)
+            if d.startswith(('self.', 'cls.')) or \
+                    f.cls is not None and d.startswith(f.cls.name + '.'):
+                rep_ = _inline_call(prog, f, st.value, st.targets[0], seq,
+                                    depth)
+                if rep_ is not None:
+                    out += rep_
+                    continue
+        for fld in ('body', 'orelse', 'finalbody'):
+            sub = getattr(st, fld, None)
+            if isinstance(sub, list) and sub and isinstance(sub[0], ast.stmt) \
+                    and not isinstance(st, (ast.FunctionDef, ast.ClassDef)):
+                setattr(st, fld, _inline_stmts(prog, f, sub, seq, depth))
+        for hd in getattr(st, 'handlers', []) or []:
+            hd.body = _inline_stmts(prog, f, hd.body, seq, depth)
+        out.append(st)
+    return out
+
+
+_inlined = {}
+
+
+def see_through(prog, f):
+    """FuncInfo of f with its same-module private helpers inlined (f itself
+    if there is nothing to inline)"""
+    key = id(f.node)
+    if key in _inlined:
+        return _inlined[key][1]
+    has = False
+    for c in calls_in(f.node):
+        d = call_name(c)
+        if d.startswith(('self.', 'cls.')):
+            if _inlinable(prog, f, prog.resolve_call(f, c, f.cls)):
+                has = True
+    out = f
+    if has:
+        node = copy.deepcopy(f.node)
+        seq = [1]
+        tmp = FuncInfo(f.name, f.qual, f.module, f.cls, node)
+        node.body = _inline_stmts(prog, tmp, node.body, seq)
+        if seq[0] > 1:
+            ast.fix_missing_locations(node)
+            out = FuncInfo(f.name, f.qual, f.module, f.cls, node)
+    _inlined[key] = (f, out)
+    return out
+
+
+# ------------------------------------------------------------------------------
 # R17.3   _prepare_pilot
 #
 class ReachingDefs:
@@ -1359,6 +1605,38 @@ def _stores_to(g, var, key):
     return out
 
 
+def poly_atoms(p):
+    out = set()
+    for k in p.t:
+        out |= set(k)
+    return out
+
+
+def node_divisions(f, ev, smap):
+    """{'cores': (BinOp, cfg node, Poly of the divisor), 'gpus': ...}: the
+    divisions of the node computation, identified by the configured quantity
+    their divisor is (flow sensitively) made of"""
+    found = {'cores': [], 'gpus': []}
+    keys = {'cores': ('rcfg.cores_per_node', "rcfg['cores_per_node']"),
+            'gpus': ('rcfg.gpus_per_node', "rcfg['gpus_per_node']")}
+    for n in walk(f.node):
+        if not (isinstance(n, ast.BinOp) and
+                isinstance(n.op, (ast.Div, ast.FloorDiv))) or \
+                id(n) not in smap:
+            continue
+        D = ev.poly(n.right, smap[id(n)].id)
+        texts = {a[1] for a in poly_atoms(D) if a[0] == 'expr'}
+        hit = [w for w in keys if texts & set(keys[w])]
+        if len(hit) == 1:
+            found[hit[0]].append((n, smap[id(n)], D))
+    if len(found['cores']) != 1 or len(found['gpus']) != 1:
+        raise AnalysisError('UNRECOGNISED-IDIOM %s: expected one division by '
+                            'the cores per node and one by the gpus per node, '
+                            'found %d / %d' % (f.where, len(found['cores']),
+                                               len(found['gpus'])))
+    return {w: found[w][0] for w in found}
+
+
 AGENT_KEYS = {'requested_nodes': 'nodes', 'backup_nodes': 'backup_nodes',
               'requested_cores': 'cores', 'requested_gpus': 'gpus'}
 
@@ -1370,7 +1648,7 @@ def r17_3(prog, rep, rid='R17.3'):
              'the larger of cores/avail-cores and gpus/avail-gpus, the '
              'divisors depending on SMT and the blocked lists; the agent '
              'reads the keys written', minimum=12)
-    f = prog.method(PMGRL[0], PMGRL[1], '_prepare_pilot')
+    f = see_through(prog, prog.method(PMGRL[0], PMGRL[1], '_prepare_pilot'))
     rep.saw(f)
     g = cfg_of(f)
     rd = ReachingDefs(g)
@@ -1418,43 +1696,39 @@ def r17_3(prog, rep, rid='R17.3'):
               '`requested_nodes <= len(node_list)` fails or nodes idle')
 
     # the node computation
-    divs = [n for n in walk(f.node) if isinstance(n, ast.BinOp) and
-            isinstance(n.op, (ast.Div, ast.FloorDiv))]
-    def dep_on(n, key):
-        return key in d.expr_depends(n.right)
-    core_div = [n for n in divs if dep_on(n, 'rcfg.cores_per_node') and
-                not dep_on(n, 'rcfg.gpus_per_node')]
-    gpu_div  = [n for n in divs if dep_on(n, 'rcfg.gpus_per_node') and
-                not dep_on(n, 'rcfg.cores_per_node')]
-    if len(core_div) != 1 or len(gpu_div) != 1:
-        raise AnalysisError('UNRECOGNISED-IDIOM %s: expected one division by '
-                            'the cores per node and one by the gpus per node, '
-                            'found %d / %d' % (f.where, len(core_div),
-                                               len(gpu_div)))
     smap = I.stmt_node_map(g)
-    for div, what, needs in ((core_div[0], 'cores', ('smt', 'blocked_cores')),
-                             (gpu_div[0], 'gpus', ('blocked_gpus',))):
-        dep = d.expr_depends(div.right)
+    ev = SymEval(f)
+    nd = node_divisions(f, ev, smap)
+    core_div, gpu_div = [nd['cores'][0]], [nd['gpus'][0]]
+    for what, needs in (('cores', ('smt', 'blocked_cores')),
+                        ('gpus', ('blocked_gpus',))):
+        div, dnode, D = nd[what]
+        have = poly_atoms(D)
         for need in needs:
-            src = {'smt': ("'smt'", 'RADICAL_SMT'),
-                   'blocked_cores': ("'blocked_cores'",),
-                   'blocked_gpus': ("'blocked_gpus'",)}[need]
-            # locals whose definition reads the configured item
-            carriers = set()
-            for n in walk(f.node):
-                if isinstance(n, ast.Assign) and any(s in unparse(n.value)
-                                                     for s in src):
-                    for t in n.targets:
-                        carriers |= set(stores_in_target(t))
-            rep.check(bool(carriers & dep), rid, f, 'divisor of the %s node '
+            if need == 'smt':
+                # locals whose definition reads the configured item
+                carriers = set()
+                for n in walk(f.node):
+                    if isinstance(n, ast.Assign) and any(
+                            x in unparse(n.value)
+                            for x in ("'smt'", 'RADICAL_SMT')):
+                        for t in n.targets:
+                            carriers |= set(stores_in_target(t))
+                okd = False
+                for c in sorted(carriers):
+                    at = poly_atoms(ev.value(c, dnode.id))
+                    okd |= bool(at) and at <= have
+            else:
+                okd = ('len', 'key:' + need) in have
+            rep.check(okd, rid, f, 'divisor of the %s node '
                       'computation `%s` depends on %s' % (what,
                                                           short(div.right),
                                                           need),
                       construct='divisor:%s:%s' % (what, need),
                       message='the number of nodes is computed as `%s` whose '
-                      'divisor does not depend on the configured %s: the job '
-                      'requests too few (or too many) nodes'
-                      % (short(div), need), loc=f.loc(div),
+                      'divisor (%s) does not involve the configured %s: the '
+                      'job requests too few (or too many) nodes'
+                      % (short(div), D.show(), need), loc=f.loc(div),
                       history={'smt': 'platform with system_architecture.smt=4'
                                ' and 42 cores per node, 168 cores requested: '
                                '4 nodes instead of 1',
@@ -1680,21 +1954,23 @@ class SymEval:
             self._guards[nid] = set(guards(self.g, nid))
         return self._guards[nid]
 
-    def _generic(self, d, at):
-        """definition d is conditional (relative to node `at`) only on truth
-        tests of plain names / attribute paths"""
+    def _generic_guards(self, d, at):
+        """extra guards of definition d (relative to node `at`) if they all
+        are truth tests of plain names / attribute paths, else None"""
+        out = []
         for tid, lab in self.guards(d) - self.guards(at):
             a = self.g.nodes[tid].ast
             if lab == 'T' and isinstance(a, (ast.Name, ast.Attribute)):
-                continue
-            raise AnalysisError('UNRECOGNISED-IDIOM %s: `%s` is updated under '
-                                'the condition `%s` (%s) - not a plain '
-                                '"quantity is known / list is non-empty" test'
-                                % (self.f.where, short(self.g.nodes[d].ast),
-                                   short(a), lab))
+                out.append(tid)
+            else:
+                return None
+        return out
 
     def pick(self, name, nid):
-        """the definition of `name` in force at the entry of node nid"""
+        """the definition of `name` in force at the entry of node nid, at the
+        generic point: a definition whose extra guards are "quantity known /
+        list non-empty" tests wins if, once those tests are assumed true, no
+        other definition reaches the node"""
         defs = sorted(self.rd.reaching(nid, name))
         if not defs:
             return None
@@ -1703,18 +1979,29 @@ class SymEval:
         g = self.g
         reach = {d: g.reachable([e.dst for e in g.succ[d]], no_back=True)
                  for d in defs}
-        order = sorted(defs, key=lambda d: sum(1 for o in defs
-                                               if o != d and d in reach[o]))
-        for i, d in enumerate(order):
-            for later in order[i + 1:]:
-                if later not in reach[d]:
-                    raise AnalysisError(
-                        'UNRECOGNISED-IDIOM %s: definitions of %r reaching '
-                        '`%s` are not a chain of conditional updates'
-                        % (self.f.where, name, short(g.nodes[nid].ast)))
-        last = order[-1]
-        self._generic(last, nid)
-        return last
+        order = sorted(defs, key=lambda d: -sum(1 for o in defs
+                                                if o != d and d in reach[o]))
+        for d in order:
+            gg = self._generic_guards(d, nid)
+            if not gg:
+                continue
+            pr = [(t, 'F') for t in gg]
+            alive = g.reachable(g.entry.id, skip_edges=pr)
+            surv = []
+            for o in defs:
+                if o not in alive:
+                    continue
+                r = g.reachable([e.dst for e in g.succ[o]],
+                                skip_nodes=set(defs) - {nid}, skip_edges=pr)
+                if nid in r:
+                    surv.append(o)
+            if surv == [d]:
+                return d
+        raise AnalysisError(
+            'UNRECOGNISED-IDIOM %s: %d definitions of %r reach `%s` and none '
+            'of them is a conditional update guarded only by "quantity is '
+            'known / list is non-empty" tests'
+            % (self.f.where, len(defs), name, short(g.nodes[nid].ast)))
 
     def value(self, name, nid, depth=0):
         key = (name, nid)
@@ -1750,7 +2037,7 @@ class SymEval:
             return l * r
         return None
 
-    def cfg_key(self, name, nid):
+    def cfg_key(self, name, nid, _depth=0):
         """'blocked_cores' if `name` is bound (single definition) to
         <x>.get('blocked_cores', ..) / <x>['blocked_cores']"""
         defs = self.rd.reaching(nid, name)
@@ -1768,6 +2055,8 @@ class SymEval:
         if isinstance(v, ast.Subscript) and isinstance(v.slice, ast.Constant) \
                 and isinstance(v.slice.value, str):
             return v.slice.value
+        if isinstance(v, ast.Name) and _depth < 6:
+            return self.cfg_key(v.id, next(iter(defs)), _depth + 1)
         return None
 
     def opaque(self, expr, nid, depth):
@@ -1814,7 +2103,7 @@ def _check_generic(ev, f, n, a):
 def agent_delta(prog, rep, attr, written):
     """what ResourceManager._init_from_scratch does to rm_info.<attr> after
     having read it from the agent config: (config key read, Poly delta)"""
-    f = prog.method(RM[0], RM[1], '_init_from_scratch')
+    f = see_through(prog, prog.method(RM[0], RM[1], '_init_from_scratch'))
     rep.saw(f)
     ev = SymEval(f)
     g = ev.g
@@ -1872,29 +2161,14 @@ def r17_4(prog, rep, rid='R17.4'):
              'equals, as a polynomial over the configured quantities, the '
              'usable cores (gpus) per node the agent derives from the '
              'cores_per_node (gpus_per_node) it is handed', minimum=2)
-    f = prog.method(PMGRL[0], PMGRL[1], '_prepare_pilot')
+    f = see_through(prog, prog.method(PMGRL[0], PMGRL[1], '_prepare_pilot'))
     ev = SymEval(f)
     g = ev.g
-    d = Deps(f.node)
     smap = I.stmt_node_map(g)
     avar = _sink_var(f, 'cfg')
-    divs = [n for n in walk(f.node) if isinstance(n, ast.BinOp) and
-            isinstance(n.op, (ast.Div, ast.FloorDiv))]
-
-    def dep_on(n, key):
-        return key in d.expr_depends(n.right)
-    for what, attr, mine, other in (
-            ('cores', 'cores_per_node', 'rcfg.cores_per_node',
-             'rcfg.gpus_per_node'),
-            ('gpus', 'gpus_per_node', 'rcfg.gpus_per_node',
-             'rcfg.cores_per_node')):
-        dv = [n for n in divs if dep_on(n, mine) and not dep_on(n, other)]
-        if len(dv) != 1 or id(dv[0]) not in smap:
-            raise AnalysisError('UNRECOGNISED-IDIOM %s: expected one division '
-                                'by the %s per node, found %d'
-                                % (f.where, what, len(dv)))
-        div = dv[0]
-        dn = smap[id(div)]
+    nd = node_divisions(f, ev, smap)
+    for what, attr in (('cores', 'cores_per_node'), ('gpus', 'gpus_per_node')):
+        div, dn, D = nd[what]
         rf, key, delta = agent_delta(prog, rep, attr, None)
         stores = _stores_to(g, avar, key)
         if len(stores) != 1:
@@ -1903,7 +2177,6 @@ def r17_4(prog, rep, rid='R17.4'):
                                 % (f.where, len(stores), avar, key, rf.qual,
                                    attr))
         sn, sv = stores[0]
-        D = ev.poly(div.right, dn.id)
         A = ev.poly(sv, sn.id)
         want = A + delta
         rep.check(D == want, rid, f, 'usable %s per node: client divisor `%s` '
@@ -2156,4 +2429,65 @@ SILENT = [
         (_RMB, "        rm_info.requested_nodes  = self._cfg.nodes", "        rm_info.requested_nodes  = self._cfg['nodes']")]),
     dict(name='max() arguments swapped', edits=[
         (_PML, "                requested_nodes = max(requested_gpus / avail_gpus_per_node,\n                                      requested_nodes)", "                requested_nodes = max(requested_nodes,\n                                      requested_gpus / avail_gpus_per_node)")]),
+    # ---- robustness corpus (behaviour preserving refactorings) ---------------
+    dict(name='corpus r1: blocked / node estimate moved into private static helpers', edits=[
+        (_PML, "    # --------------------------------------------------------------------------\n    #\n    def _prepare_pilot(self, resource, rcfg, pilot, expand, tar_name):\n",
+               "    # --------------------------------------------------------------------------\n    #\n"
+               "    @staticmethod\n    def _usable_per_node(per_node, blocked, allow_none_left=False):\n"
+               "        # cores / gpus per node which remain usable w/o the blocked ones\n\n"
+               "        if per_node and blocked:\n            per_node -= len(blocked)\n"
+               "            if allow_none_left: assert (per_node >= 0)\n            else              : assert (per_node >  0)\n\n"
+               "        return per_node\n\n\n"
+               "    # --------------------------------------------------------------------------\n    #\n"
+               "    @staticmethod\n    def _estimate_nodes(n_nodes, n_cores, cores_per_node, n_gpus, gpus_per_node):\n"
+               "        # smallest number of whole nodes covering the given cores and gpus\n\n"
+               "        if cores_per_node:\n            n_nodes = n_cores / cores_per_node\n\n"
+               "        if gpus_per_node:\n            n_nodes = max(n_gpus / gpus_per_node, n_nodes)\n\n"
+               "        return math.ceil(n_nodes)\n\n\n"
+               "    # --------------------------------------------------------------------------\n    #\n    def _prepare_pilot(self, resource, rcfg, pilot, expand, tar_name):\n"),
+        (_PML, "        avail_cores_per_node = cores_per_node\n        avail_gpus_per_node  = gpus_per_node\n\n"
+               "        if avail_cores_per_node and blocked_cores:\n            avail_cores_per_node -= len(blocked_cores)\n            assert (avail_cores_per_node > 0)\n\n"
+               "        if avail_gpus_per_node and blocked_gpus:\n            avail_gpus_per_node -= len(blocked_gpus)\n            assert (avail_gpus_per_node >= 0)\n",
+               "        avail_cores_per_node = self._usable_per_node(cores_per_node,\n                                                     blocked_cores)\n"
+               "        avail_gpus_per_node  = self._usable_per_node(gpus_per_node,\n                                                     blocked_gpus,\n                                                     allow_none_left=True)\n"),
+        (_PML, "            if avail_cores_per_node:\n                requested_nodes = requested_cores / avail_cores_per_node\n\n"
+               "            if avail_gpus_per_node:\n                requested_nodes = max(requested_gpus / avail_gpus_per_node,\n                                      requested_nodes)\n\n"
+               "            requested_nodes = math.ceil(requested_nodes)\n",
+               "            requested_nodes = self._estimate_nodes(requested_nodes,\n                                        requested_cores, avail_cores_per_node,\n                                        requested_gpus,  avail_gpus_per_node)\n")]),
+    dict(name='corpus r1b: usable-per-node helper with an early return', edits=[
+        (_PML, "    # --------------------------------------------------------------------------\n    #\n    def _prepare_pilot(self, resource, rcfg, pilot, expand, tar_name):\n",
+               "    # --------------------------------------------------------------------------\n    #\n"
+               "    def _usable(self, per_node, blocked):\n\n"
+               "        if not per_node or not blocked:\n            return per_node\n\n"
+               "        return per_node - len(blocked)\n\n\n"
+               "    # --------------------------------------------------------------------------\n    #\n    def _prepare_pilot(self, resource, rcfg, pilot, expand, tar_name):\n"),
+        (_PML, "        avail_cores_per_node = cores_per_node\n        avail_gpus_per_node  = gpus_per_node\n\n"
+               "        if avail_cores_per_node and blocked_cores:\n            avail_cores_per_node -= len(blocked_cores)\n            assert (avail_cores_per_node > 0)\n\n"
+               "        if avail_gpus_per_node and blocked_gpus:\n            avail_gpus_per_node -= len(blocked_gpus)\n            assert (avail_gpus_per_node >= 0)\n",
+               "        avail_cores_per_node = self._usable(cores_per_node, blocked_cores)\n"
+               "        avail_gpus_per_node  = self._usable(gpus_per_node,  blocked_gpus)\n"
+               "        assert (not cores_per_node or avail_cores_per_node > 0)\n")]),
+    dict(name='corpus r2: resource entry cached in a local, merged operand inlined', edits=[
+        (_SES, "        if res not in self._rcfgs[site]:\n", "        site_cfgs = self._rcfgs[site]\n        if res not in site_cfgs:\n"),
+        (_SES, "        if not schema:\n            schema = self._rcfgs[site][res]['default_schema']\n\n        if not schema:\n            from_dict = self._rcfgs[site][res]\n            from_dict.label = resource\n            return ResourceConfig(from_dict=from_dict)\n\n        if schema not in self._rcfgs[site][res]['schemas']:",
+               "        entry  = site_cfgs[res]\n        schema = schema or entry['default_schema']\n\n        if not schema:\n            entry.label = resource\n            return ResourceConfig(from_dict=entry)\n\n        if schema not in entry['schemas']:"),
+        (_SES, "        rcfg = ResourceConfig(from_dict=self._rcfgs[site][res])\n        scfg = rcfg['schemas'][schema]\n\n        ru.dict_merge(rcfg, scfg, ru.OVERWRITE)",
+               "        rcfg = ResourceConfig(from_dict=entry)\n        ru.dict_merge(rcfg, rcfg['schemas'][schema], ru.OVERWRITE)")]),
+    dict(name='corpus r3: factories select with impl.get(name) / membership test', edits=[
+        (_EXB, "        if name not in impl:\n            raise ValueError('AgentExecutingComponent %s unknown' % name)\n\n        return impl[name](cfg, session)",
+               "        executor_cls = impl.get(name)\n        if executor_cls is None:\n            raise ValueError('AgentExecutingComponent %s unknown' % name)\n\n        return executor_cls(cfg, session)"),
+        (_LMB, "        if name not in impl:\n            raise ValueError('LaunchMethod %s unknown' % name)\n\n        return impl[name](name, lm_cfg, rm_info, log, prof)",
+               "        lm_cls = impl.get(name)\n        if lm_cls is None:\n            raise ValueError('LaunchMethod %s unknown' % name)\n\n        return lm_cls(name, lm_cfg, rm_info, log, prof)"),
+        (_SCB, "        if name not in impl:\n            raise ValueError('Scheduler %s unknown' % name)\n\n        return impl[name](cfg, session)",
+               "        scheduler_cls = impl.get(name)\n        if scheduler_cls is None:\n            raise ValueError('Scheduler %s unknown' % name)\n\n        return scheduler_cls(cfg, session)")]),
+    dict(name='corpus r4: description cached, total_nodes local, branches swapped', edits=[
+        (_PML, "        backup_nodes     = pilot['description']['backup_nodes']\n        requested_nodes  = pilot['description']['nodes']\n        requested_cores  = pilot['description']['cores']\n        requested_gpus   = pilot['description']['gpus']\n",
+               "        descr            = pilot['description']\n        backup_nodes     = descr['backup_nodes']\n        requested_nodes  = descr['nodes']\n        requested_cores  = descr['cores']\n        requested_gpus   = descr['gpus']\n"),
+        (_PML, "        if requested_nodes:\n            if not avail_cores_per_node:\n                raise RuntimeError('use \"cores\" in PilotDescription')\n\n        else:\n",
+               "        if not requested_nodes:\n"),
+        (_PML, "            requested_nodes = math.ceil(requested_nodes)\n",
+               "            requested_nodes = math.ceil(requested_nodes)\n\n        elif not avail_cores_per_node:\n            raise RuntimeError('use \"cores\" in PilotDescription')\n"),
+        (_PML, "        allocated_cores = (\n            (requested_nodes + backup_nodes) * avail_cores_per_node) \\\n                    or requested_cores\n        allocated_gpus  = (\n            (requested_nodes + backup_nodes) * avail_gpus_per_node)  \\\n                    or requested_gpus\n",
+               "        total_nodes     = requested_nodes + backup_nodes\n        allocated_cores = total_nodes * avail_cores_per_node or requested_cores\n        allocated_gpus  = total_nodes * avail_gpus_per_node  or requested_gpus\n"),
+        (_PML, "        jd_dict.node_count            = requested_nodes + backup_nodes", "        jd_dict.node_count            = total_nodes")]),
 ]
